@@ -494,7 +494,7 @@ pub open spec fn file_bit(data: Seq<u8>, i: int) -> bool {
 
 impl DynamicBitfield {
     /*@ fn src/bitfield/dynamic.rs DynamicBitfield::open ; refcell
-    tags: C08 C01 C06
+    tags: C08 C01 C06 C07
     result: r
     requires:
         info is Some ==> (info->Some_0.info_type == StoreInfoType::Size ==> info->Some_0.length is Some),
@@ -507,7 +507,7 @@ impl DynamicBitfield {
         info is Some && info->Some_0.info_type == StoreInfoType::Content ==> r is Right && r->Right_0.wf()
             && r->Right_0.unflushed@.len() == 0
             && forall|k: int| #![trigger r->Right_0.bit(k)] r->Right_0.bit(k) == file_bit(info->Some_0.data->Some_0@, k)
-    before `let length = bitfield_store_length -`:
+    before `let length = `:
         assert(bitfield_store_length & 3 == bitfield_store_length % 4) by (bit_vector);
         assert(bitfield_store_length & 3 <= bitfield_store_length) by (bit_vector);
     loop 1:
